@@ -7,7 +7,7 @@ use gimli::*;
 
 use super::units::DebuggingInformationCursor;
 
-#[derive(Debug, PartialEq)]
+#[derive(Debug, Clone, Copy, PartialEq)]
 pub enum AddressSearchPreference {
     /// Normal range comparison (inclusive start, exclusive end)
     ExclusiveFunctionEnd,
